@@ -421,6 +421,16 @@ func (w *World) begin(name, path string) (op *Op, flt *Fault, ok bool) {
 	}
 	if f, has := w.faultAt[seq]; has {
 		ff := f
+		if ff.Kind == "extern" {
+			// another process appends to a file behind the program's back
+			op.Fault = "extern"
+			w.FiredSeq = append(w.FiredSeq, op.Seq)
+			if n := w.Peek(ff.Path); n != nil && n.Kind == KFile {
+				n.Data = append(append([]byte(nil), n.Data...), ff.Data...)
+				w.touch(n)
+			}
+			return op, nil, true
+		}
 		if ff.Kind == "signal" {
 			// a signal arrives just before this operation; the operation itself
 			// then proceeds normally (unless the signal terminates the process)
